@@ -84,7 +84,9 @@ func (c02Sys) Root() *c02State {
 	// bridge 2 exists and stays idle; bridge 3 (not the next id after the explored bridge 1: whatever walks the
 	// claim records bridge by bridge has an empty bridge in between) has a life of its own: an output, final by
 	// now, and one paid withdrawal
-	if res := w.Deliver(w.Ctx, ophosttypes.NewMsgCreateBridge(world.Addr("creator").String(), world.BridgeConfig("proposer", "challenger", c02Period))); !res.OK() {
+	// ... under the shortest legal finalization period (1 ns): its output is final in the block that proposes it,
+	// and the withdrawal is paid in that same block
+	if res := w.Deliver(w.Ctx, ophosttypes.NewMsgCreateBridge(world.Addr("creator").String(), world.BridgeConfig("proposer", "challenger", time.Nanosecond))); !res.OK() {
 		panic(res.Err)
 	}
 	fx := newC02Fixture()
@@ -98,7 +100,6 @@ func (c02Sys) Root() *c02State {
 			panic(res.Err)
 		}
 	}
-	ctx = world.Advance(ctx, c02Period)
 	if res := w.Deliver(ctx, claimMsg(t2.Ws[0], t2.Tree.Proof(0), 1, "bob", t2.Version, t2.StorageRoot[:], t2.BlockHash)); !res.OK() {
 		return &c02State{ctx: ctx, w: w, fx: fx, setup: res.Err.Error()}
 	}
